@@ -6,5 +6,6 @@ inline void c17_use3(uint64_t* b, size_t n)
 {
 	(void)HashSorter::Find(b, n, uint64_t{1});
 	(void)HashSorter::IsSorted(b, n);
+	HashSorter::Sort(b, n);
 }
 }
